@@ -24,6 +24,7 @@ gradients (each is compared with its own dense reference and the two with each o
 """
 from __future__ import annotations
 
+import gc
 import math
 
 import torch
@@ -309,6 +310,14 @@ def run_config(case, cfg, leaves_vals, g, labels, second):
 
 
 def run_case(case):
+    try:
+        return _run_case(case)
+    finally:
+        # the Krylov backward leaves reference cycles that hold whole autograd graphs: free them per case
+        gc.collect()
+
+
+def _run_case(case):
     torch.manual_seed(case["seed"] & 0x7FFFFFFF)
     g = gen.seeded(case["seed"])
     fam, n = case["fam"], case["n"]
@@ -343,7 +352,8 @@ def run_case(case):
             if v.status == "discard":
                 return ok(labels + ["twin_discarded"], nontrivial=nontrivial)
             return v
-        if "grad1" in b:
+        if "grad1" in b and max(a["res"], b["res"]) <= 1e-8:      # both returned points are the solution to 1e-8/sigma (not adam)
+            labels.append("twin_compared")
             kap = kappa(fam, n)
             for k, (ga, gb) in enumerate(zip(a["grad1"], b["grad1"])):
                 tol = (a["tol1"] + b["tol1"] + 10 * kap ** 2 * (a["res"] + b["res"])) * (1 + a["ref1max"])
